@@ -42,3 +42,9 @@ def handleArith : List Sexp → Sexp
   | _ => .list [.atom "bad-request"]
 
 end ExprModel.Drv
+
+namespace ExprModel.Drv
+/-- stage table exported to Driver.lean: (request tag, handler receiving the whole request list) -/
+def arithHandlers : List (String × (List Sexp → Sexp)) :=
+  [("arith", handleArith), ("neg", handleArith), ("combined", handleArith), ("toint", handleArith)]
+end ExprModel.Drv
